@@ -82,6 +82,8 @@ def rust_type(d, params=None, lt="'static"):
         return params["types"][d["i"] - 1]
     if k in ("struct", "enum"):
         args = [r(tp["arg"]) for tp in d["tps"]] + [str(c["val"]) for c in d["consts"]]
+        if d["name"].endswith("d4"):      # const parameters declared first (spec/Derive.tla, decoration 4)
+            args = [str(c["val"]) for c in d["consts"]] + [r(tp["arg"]) for tp in d["tps"]]
         pre = (d.get("mod") + "::") if d.get("mod") else ""
         if not pre and params and params.get("inmod"):
             pre = "super::"     # inside a mutant's module a core definition is shadowed by its namesake mutant
@@ -169,6 +171,10 @@ def gen_def(d, out):
         i = tparams.index(wn)
         tb[i] = (tb[i] + " + " + wb) if tb[i] else wb
     generics_use = ", ".join(tparams + [c["name"] for c in cparams])
+    if d["name"].endswith("d4"):          # const parameters declared first
+        generics_decl = ", ".join([f"const {c['name']}: {c['ck']}" for c in cparams] +
+                                  [t + (": " + b if b else "") + (" = " + df if df else "") for t, b, df in zip(tparams, tb, tdef)])
+        generics_use = ", ".join([c["name"] for c in cparams] + tparams)
     gd = f"<{generics_decl}>" if generics_decl else ""
     gu = f"<{generics_use}>" if generics_use else ""
     derives = "epserde::Epserde, Debug, Clone" + (", Copy" if zc else "")
